@@ -33,7 +33,7 @@ theorem flushIf_inv {o : Observer σ} {P : σ → Prop} (hI : ObsInv o P) (c : B
   · exact flushAudio_inv hI s os h
   · exact h
 
-theorem cacheSeqHeader_ok {P : σ → Prop} (s : St) (os : σ) (r : GoM Bytes) (hr : NoPanic r) (h : P os) :
+theorem cacheSeqHeader_ok {P : σ → Prop} (s : St) (os : σ) (r : GoM Bytes) (hr : NoPanicB r) (h : P os) :
     Ok (fun x => P x.2) (cacheSeqHeader s os r) := by
   unfold cacheSeqHeader
   split
